@@ -73,6 +73,25 @@ Definition read_operand : M vcell :=
   | None => fail E_OTHER
   end.
 
+(* a lexical slot is read and written through at most ONE indirection,
+   run.rs:394-401 and 424-437 *)
+Definition load_lex_slot (slot : N) : M vcell :=
+  dom s <- get_vm;
+  dom ev <- hget (ep s); dom eid <- as_lexenv ev;
+  dom v <- env_get eid slot;
+  match v with
+  | VLexPtr env slot2 => dom ev2 <- hget env; dom eid2 <- as_lexenv ev2; env_get eid2 slot2
+  | _ => ret v
+  end.
+Definition store_lex_slot (slot : N) (v : vcell) : M unit :=
+  dom s <- get_vm;
+  dom ev <- hget (ep s); dom eid <- as_lexenv ev;
+  dom cur <- env_get eid slot;
+  match cur with
+  | VLexPtr env slot2 => dom ev2 <- hget env; dom eid2 <- as_lexenv ev2; env_put eid2 slot2 v
+  | _ => env_put eid slot v
+  end.
+
 (* run.rs:381-404 *)
 Definition load_operand : M vcell :=
   dom o <- read_operand;
@@ -89,13 +108,7 @@ Definition load_operand : M vcell :=
       | Some VUndef => fail E_OTHER         (* VariableNotBound *)
       | Some v => ret v
       end
-  | VLexSlot slot =>
-      dom ev <- hget (ep s); dom eid <- as_lexenv ev;
-      dom v <- env_get eid slot;
-      match v with
-      | VLexPtr env slot2 => dom ev2 <- hget env; dom eid2 <- as_lexenv ev2; env_get eid2 slot2
-      | _ => ret v
-      end
+  | VLexSlot slot => load_lex_slot slot
   | _ => fail E_OTHER
   end.
 
@@ -113,13 +126,7 @@ Definition store_operand (v : vcell) : M unit :=
       if slot <? len (g_slots s)
       then fun s => ROk tt (with_globals s (g_bind s) (list_set (g_slots s) slot v))
       else panic 45
-  | VLexSlot slot =>
-      dom ev <- hget (ep s); dom eid <- as_lexenv ev;
-      dom cur <- env_get eid slot;
-      match cur with
-      | VLexPtr env slot2 => dom ev2 <- hget env; dom eid2 <- as_lexenv ev2; env_put eid2 slot2 v
-      | _ => env_put eid slot v
-      end
+  | VLexSlot slot => store_lex_slot slot v
   | _ => fail E_OTHER
   end.
 
